@@ -9,7 +9,9 @@
 //! buffer iff the same unit is trimmable in a UTF-16 buffer; and the set is ECMAScript WhiteSpace +
 //! LineTerminator (12.2, 12.3).
 
-// ASSUME-FILE[assume]: none (full domain: all 256 bytes / all 2^16 code units).
+// ASSUME-FILE[assume]: none (full domain: all 256 bytes / all 2^16 code units / all usize index pairs).
+// ASSUME-FILE[drop]: the slice result is forgotten (its drop glue walks the string vtables).
+// ASSUME-FILE[unwind]: loops over the 6 code units of the static base string "length".
 
 use super::*;
 
@@ -54,6 +56,31 @@ fn c11_trim_table_utf16_is_ecmascript_whitespace() {
     kani::cover!(u == 0xFEFF);
     kani::cover!(u >= 0xD800 && u < 0xE000);
     assert!(utf16_path(u) == s_trimmable(u));
+}
+
+
+/// `JsString::slice(p1, p2)` on a (static, 6-unit) base string, for EVERY pair of usize indices: the unsafe
+/// `slice_unchecked` is only reached with `start <= end <= len` (its in-place `requires`, asserted at the call
+/// site), and the result has exactly the units `base[p1 .. min(p2, len)]` (empty when p1 is not below that end).
+// FN: JsString::slice, JsString::slice_unchecked
+#[kani::proof]
+#[kani::unwind(9)]
+fn c11_slice_indices_all_usize() {
+    let base = StaticJsStrings::LENGTH; // "length"
+    assert!(base.len() == 6);
+    let (p1, p2): (usize, usize) = (kani::any(), kani::any());
+    kani::cover!(p1 > 6 && p2 > p1);
+    kani::cover!(p1 == 2 && p2 == 5);
+    kani::cover!(p2 > 6 && p1 < 6);
+    let r = base.slice(p1, p2);
+    let end = if p2 > 6 { 6 } else { p2 };
+    let want_len = if p1 >= end { 0 } else { end - p1 };
+    assert!(r.len() == want_len);
+    let units: [u16; 6] = [0x6C, 0x65, 0x6E, 0x67, 0x74, 0x68];
+    let i: usize = kani::any();
+    kani::assume(i < want_len);
+    assert!(r.as_str().get(i) == Some(units[p1 + i]));
+    std::mem::forget(r);
 }
 
 #[cfg(verif_replay)]
